@@ -59,7 +59,8 @@ def main():
         rec['checks'] = results
     finally:
         sh('git checkout -- torchtt', wt)
-    dest = os.path.join(VERIF, 'seeded', '%s-%s' % (prop, k))
+    sid = sys.argv[sys.argv.index('--id') + 1] if '--id' in sys.argv else '%s-%s' % (prop, k)
+    dest = os.path.join(VERIF, 'seeded', sid)
     os.makedirs(dest, exist_ok=True)
     shutil.copy(os.path.join(sd, 'patch.diff'), dest)
     shutil.copy(os.path.join(sd, 'demo.py'), dest)
@@ -68,7 +69,7 @@ def main():
     rec['detected'] = any(v['rc'] == 1 for v in rec.get('checks', {}).values())
     json.dump({'property': prop, 'breaks': meta.get('what_breaks'), 'needs_to_manifest': meta.get('needs_to_manifest'), 'files': meta.get('files'),
                'confirmed_by_me': rec}, open(os.path.join(dest, 'meta.json'), 'w'), indent=1)
-    print('%s-%s confirmed=%s detected=%s' % (prop, k, ok, rec['detected']))
+    print('%s confirmed=%s detected=%s' % (sid, ok, rec['detected']))
     for p, v in rec.get('checks', {}).items():
         print('   ', p, 'rc=%d' % v['rc'], v['classes'][:4], v['harness'][:1])
     if not ok:
